@@ -221,6 +221,11 @@ theorem code_shape :
 for a catalogue commit inside the handler, without a timeout -/
 theorem loop_waits_for_commit_in_handler : Generated.allocatorHandlerWaitsForCommit = true := by decide
 
+/-- whoever waits for a catalogue change (the allocator loop: without a timeout) is woken on every
+path through its apply function: no return that knows the notification id comes without a Notify
+(regenerated; seeded change C18-D returns early for a replica that is listed already) -/
+theorem catalogue_apply_always_notifies : Generated.catalogueApplyAlwaysNotifies = true := by decide
+
 /-! ## non-vacuity: a burst longer than the channel drains completely -/
 
 example : ∃ c', Step ⟨10, false, false, false⟩ (init [.conf, .watch, .conf]) c' :=
